@@ -219,6 +219,21 @@ class TreeSuite(Suite):
                 pids, xyz = np_, nx
             t = {"n": len(pids), "pids": pids, "types": [1] + [3] * (len(pids) - 1), "xyz": xyz, "r": [1.0] * len(pids)}
             out.append({"class": "iso-coincident-ends/named", "tree": t, "op": "iso", "arg": rng.choice([0.5, 1.0, 1.5]), "warm": [None, 3.0, 2.5][m % 3]})
+        # long branches with coordinates that are not on a lattice (segment lengths are irrational, float32 sums round): a stem and
+        # two daughters of 8–12 segments each
+        for rep in range(12 if not big else 40):
+            pids, xyz = [-1], [[0.0, 0.0, 0.0]]
+            def grow(start, m):
+                prev = start
+                for _ in range(m):
+                    q = [round(xyz[prev][i] + rng.randint(-1500, 1500) / 1000, 3) for i in range(3)]
+                    pids.append(prev); xyz.append(q); prev = len(pids) - 1
+                return prev
+            f = grow(0, rng.randint(8, 12)); grow(f, rng.randint(8, 12)); grow(f, rng.randint(8, 12))
+            if len({tuple(q) for q in xyz}) < len(xyz):
+                continue
+            t = {"n": len(pids), "pids": pids, "types": [1] + [3] * (len(pids) - 1), "xyz": xyz, "r": [1.0] * len(pids)}
+            out.append({"class": "iso/float-Y", "tree": t, "op": "iso", "arg": rng.choice([2.0, 1.5, 0.75]), "warm": None})
         k = 0
         for n in [2, 3, 4, 6, 9, 14] + ([30, 80] if big else []):
             for _ in range(2 if not big else 5):
@@ -339,6 +354,8 @@ class TreeSuite(Suite):
                     if x in set(cr_in):
                         break
                 n_expected = int(math.ceil(Lb / d)) + 1
+                if abs(Lb / d - round(Lb / d)) < 1e-3:
+                    continue      # the branch length is a multiple of the spacing up to rounding: either count is right
                 if len(chain) != n_expected:
                     out.append(("resample-branch-count", f"a branch of length {Lb} resampled at {d} has {len(chain)} nodes, expected ceil(L/d)+1 = {n_expected}")); break
                 if max(gaps) > Lb / (n_expected - 1) + 1e-4:
